@@ -588,3 +588,76 @@ def c15(ctx):
                 "(-std=c89 / -std=c99) and the program is run; TLC validates that what was printed compiles and that "
                 "the computed double agrees to 2^-40 with the library's evaluation of the expression at the binding")
     simple(ctx, "MC_C15", "Trace_C15", floor=0.5)
+
+
+# ---------------------------------------------------------------------- C43
+BACKENDS = ("base", "gmpxx", "boost")
+
+
+def across_backends(ctx, cases, trace_module, floor, shards=None, backends=BACKENDS, every=1, skip_spec=(),
+                    any_valid=()):
+    """Replay one case file on every integer back end, validate each trace with the same specification (every
+    n-th event when every > 1), then validate that the results are identical (Trace_C43X)."""
+    evs = {}
+    for cfg in backends:
+        evs[cfg] = ctx.drive(cfg, cases)
+        if cfg in skip_spec:
+            continue
+        sel = evs[cfg]
+        if every > 1:
+            sel = evs[cfg] + ".sel"
+            with open(evs[cfg]) as f, open(sel, "w") as g:
+                for i, line in enumerate(f):
+                    if i % every == 0:
+                        g.write(line)
+        bad = ctx.validate(trace_module, sel, floor=floor, shards=shards)
+        for b in bad:
+            b["why"] += "@" + cfg
+        ctx.judge(bad, cases)
+    merged = cases.replace(".cases", "") + ".merged.events"
+    per = []
+    for c in backends:
+        d = {}
+        for e in L.read_ndjson(evs[c]):
+            d[e["c"]["id"]] = e
+        per.append(d)
+    with open(merged, "w") as out:
+        for i in sorted(per[0]):
+            if not all(i in d for d in per):
+                continue          # (a crash on one back end is flagged by drive)
+            es = [d[i] for d in per]
+            for e in es:
+                # results characterised by a contract only (whether and which factor a randomised method finds):
+                # validated per back end by the trace specification, not compared
+                for k in any_valid:
+                    e["r"].pop(k, None)
+            out.write(json.dumps({"c": es[0]["c"], "r": {"exc": "", "names": list(backends),
+                                  "res": [json.dumps(e["r"], sort_keys=True) for e in es]}}) + "\n")
+    bad = ctx.validate("Trace_C43X", merged, floor=0.9)
+    ctx.judge(bad, cases)
+
+
+@plan("C43")
+def c43(ctx):
+    ctx.rule = ("TLC enumerates calls of the integer back-end wrappers (50 mp_* functions and the integer / rational "
+                "class operators: arithmetic, the three division conventions, gcd / lcm / Bezout, modular inverse and "
+                "power, roots, primality, perfect powers, next prime, Fibonacci / Lucas / factorial / primorial / "
+                "binomial, Legendre / Jacobi / Kronecker, bit operations, conversions, fractions) on small, limb-"
+                "boundary, word-boundary and multi-word integers up to 10^40 and 2^127; every case is replayed on "
+                "the GMP, GMP C++ and Boost.Multiprecision builds of the library; TLC validates each trace against "
+                "the school arithmetic of module BigInt (contracts for roots, Bezout coefficients and inverses; "
+                "Lucas certificates and factorisations for large primes and composites) and then that the three "
+                "results are identical; the number-theory, exact-arithmetic and polynomial workloads of C32, C05, "
+                "C21, C22, C23 and C03 are replayed and validated the same way on every back end")
+    ctx.model_check("MC_BigInt", cfg="MC_BigInt.cfg", workers=1, env={"OUT": "/dev/null"})
+    cases = ctx.gen("MC_C43")
+    across_backends(ctx, cases, "Trace_C43", 0.9)
+    reuse = [("MC_C32", "Trace_C32", 0.9), ("MC_Num", "Trace_C05", 0.5)]
+    if ctx.thorough:
+        reuse += [("MC_C21", "Trace_C21", 0.5), ("MC_C22", "Trace_C22", 0.5), ("MC_C23", "Trace_C23", 0.9), ("MC_C03", "Trace_Val", 0.5)]
+    for mc, tr, fl in reuse:
+        cs = ctx.gen(mc)
+        # (the GMP build's trace of these workloads is validated in full by the property the workload belongs to;
+        #  the quick tier validates every 8th event of the other back ends and compares all of them)
+        across_backends(ctx, cs, tr, fl, every=1 if ctx.thorough else 8, skip_spec=() if ctx.thorough else ("base",),
+                        shards=5, any_valid=("factor_rho", "factor_pm1"))
